@@ -73,6 +73,9 @@ def run(ctx):
     na = flow_a(ctx, MINE, cfgs)
     ctx.exhaustive = ctx.quick
     nb = flow_b(ctx, MINE, 40 if ctx.quick else 300, 512 if ctx.quick else 4096, 1)
+    if not ctx.quick:
+        from vlib import suiteflow
+        suiteflow.judge(ctx, mine_coding=MINE)           # Flow S: the suite's own encode -> decode pairs
     ctx.assumptions += ["fast mode only on graphs without out-degree 3 (decided by TLC)",
                         "thorough exports a seed-chosen 1/16 (1/4) stratum of the large scopes; the invariants are checked on all of it"]
     return {"scope": {"flowA_behaviours": na, "flowB_cases": nb}}
